@@ -7,7 +7,7 @@ PROPS = {
         lean_modules=["Enc.Props.C20"],
         variants=[{"name": "default", "tags": "verif"}, {"name": "purego", "tags": "verif purego"}],
         areas=["ascii.", "asmascii."],
-        allowed_native=["Enc.Lemmas.Ascii."],
+        allowed_native=["Enc.Lemmas.Ascii"],
         main_theorem="Enc.Props.C20.validString_spec / validPrintString_spec / equalFoldString_spec",
         rule="exhaustive in-process sweep (every length 0..L, 16 alignments, every position of one deviating byte, "
              "17..256 deviating values; all byte pairs at block boundaries for EqualFold; every prefix/suffix split) in BOTH the "
